@@ -143,3 +143,26 @@ pub fn enumerate(full_n: usize, core_n: usize) -> Vec<NameSpec> {
     }
     out
 }
+
+/// Descend-then-climb names: k components over {`..`, `a`} followed by `B.txt`, at most 4 `..`,
+/// one separator style per name, no prefix.  They reach the names whose `..` only become an
+/// escape *after* normal components (`a\..\..\B.txt`), beyond the length bound of `enumerate`.
+pub fn climbers(min_k: usize, max_k: usize) -> Vec<NameSpec> {
+    let dd = FULL.iter().position(|c| *c == "..").unwrap();
+    let a = FULL.iter().position(|c| *c == "a").unwrap();
+    let leaf = FULL.iter().position(|c| *c == "B.txt").unwrap();
+    let mut out = vec![];
+    for k in min_k..=max_k {
+        for bits in 0..(1u32 << k) {
+            let mut comps: Vec<usize> = (0..k).map(|j| if bits >> j & 1 == 1 { dd } else { a }).collect();
+            if comps.iter().filter(|&&c| c == dd).count() > 4 {
+                continue;
+            }
+            comps.push(leaf);
+            for sep in 0..SEPS.len() {
+                out.push(NameSpec { prefix: 0, comps: comps.clone(), seps: vec![sep; k] });
+            }
+        }
+    }
+    out
+}
